@@ -199,7 +199,13 @@ let make_oracles cfg : oracles =
             t_helostr = helo; t_authname = authname; t_tlsclient = None; t_remoteinfo = None;
             t_heloname = bytes_of_str "mail.example.org"; t_version = bytes_of_str "Qsmtpd 0.39dev";
             t_esmtp = esmtp; t_cipher = None; t_chunked = false; t_first = first; t_date = bytes_of_str (String.make 31 'D') }
-          from (int_of_n relayclient = 1)) }
+          from (int_of_n relayclient = 1));
+    (* submission mode: TCPLOCALPORT (cfg port) is the regenerated port string; the date is the (masked) one of the Received: line,
+       gettimeofday() is wrapped by the harness (harness/session/wraps.c), control/msgidhost of the scratch tree *)
+    o_submission = (cfg "port" "25" = str_of_bytes submission_port);
+    o_subm_date = bytes_of_str (String.make 31 'D');
+    o_subm_stamp = bytes_of_str "1000000000.123456";
+    o_msgidhost = bytes_of_str "msgid.example.org" }
 
 (* ---- end copy ---- *)
 
